@@ -505,3 +505,19 @@ def ctor_copies_arguments(model, rep, mname, cname, mutable_params, rule='constr
     if got != ['self.a', 'self.b']:
         raise AnalysisError('alias self-check failed on the synthetic constructor: %s' % got)
     return n
+
+
+def alias_names(fn, name):
+    """``name`` together with every local it is a plain alias of / that is a plain alias of it (``a = b`` bound once, as left
+    behind when a helper that builds and returns an array has been inlined)."""
+    names = {name}
+    changed = True
+    while changed:
+        changed = False
+        for n in ast.walk(fn):
+            if isinstance(n, ast.Assign) and len(n.targets) == 1 and isinstance(n.targets[0], ast.Name) and isinstance(n.value, ast.Name):
+                a, b = n.targets[0].id, n.value.id
+                if (a in names) != (b in names):
+                    names |= {a, b}
+                    changed = True
+    return names
